@@ -2,7 +2,8 @@
 # Apply each seeded change to /repo, run the checks that should catch it, undo it.  Usage: tools/run_seeds.sh [seed ...]
 cd /verif
 declare -A CHECKS=( [C05a]="C05" [C13]="C13" [C19]="C19" [C20]="C20" [C02]="C02" [C03]="C03 C02" [C04]="C04 C02" [C15]="C15"
-  [r2C02]="C02" [r2C03]="C03 C02" [r2C04]="C04 C02" [r2C05a]="C05" [r2C05b]="C05" [r2C13]="C13" [r2C15]="C15 C19" [r2C19]="C19" [r2C20]="C20" [r3C01a]="C01" [r3C01b]="C01" [r3C06]="C06" )
+  [r2C02]="C02" [r2C03]="C03 C02" [r2C04]="C04 C02" [r2C05a]="C05" [r2C05b]="C05" [r2C13]="C13" [r2C15]="C15 C19" [r2C19]="C19" [r2C20]="C20" [r3C01a]="C01" [r3C01b]="C01" [r3C06]="C06"
+  [r4C01]="C01" [r4C02]="C02" [r4C03]="C03 C02" [r4C04]="C04" [r4C05]="C05" [r4C06a]="C06 C15" [r4C06b]="C06" [r4C15]="C15 C01" )
 SEEDS=${@:-C13 C19 C20 C15 C05a C03 C04 C02}
 for s in $SEEDS; do
   if ! git -C /repo diff --quiet; then echo "/repo has uncommitted changes: abort"; exit 3; fi
